@@ -25,17 +25,23 @@ RECURSIVE Members(_)
 Members(o) == IF o.cls = "Chain" THEN Members(o.first) + Members(o.second) ELSE 1
 TolFor(o) == OpTol * Members(o)
 
+\* the object a call line addresses: the state's object, or one member of it (ChainedBinNormalisation::
+\* apply_only_first / apply_only_second / undo_only_...; the members are set up together with the chain)
+Target(r) == IF ~Has(r, "part") \/ r.part = "all" THEN obj
+             ELSE IF obj.cls # "Chain" THEN [cls |-> "Unknown"]
+             ELSE IF r.part = "first" THEN obj.first ELSE obj.second
+
 \* --- exact classes: related viewgrams
 RVValuesOk(r) ==
   /\ ShapeVg(r)
   /\ \A i \in 1..Len(r.vg) : \A a \in 1..Len(r.in[i]) : \A t \in 1..Len(r.in[i][a]) :
-       LET e == Eff(obj, ElemBin(r.G, r.vg, i, a, t)) IN
+       LET e == Eff(Target(r), ElemBin(r.G, r.vg, i, a, t)) IN
        IF r.op = "undo" THEN UndoOk(r.in[i][a][t], r.out[i][a][t], e)
        ELSE r.op = "apply" /\ ApplyOk(r.in[i][a][t], r.out[i][a][t], e)
 \* --- exact classes: whole data set ("whether called on related viewgrams with any symmetries or on a whole data set")
 WholeValuesOk(r) ==
   \A b \in BinsOf(r.G) :
-     LET e == Eff(obj, b) IN
+     LET e == Eff(Target(r), b) IN
      IF r.op = "undo" THEN UndoOk(At5(r.in, r.G, b), At5(r.out, r.G, b), e)
      ELSE r.op = "apply" /\ ApplyOk(At5(r.in, r.G, b), At5(r.out, r.G, b), e)
 \* --- objects with an attenuation member: fixed-point logarithms
@@ -54,8 +60,8 @@ RVFValuesOk(r) ==
 WholeFValuesOk(r) == \A b \in BinsOf(r.G) : LgOk(r, At5(r.in, r.G, b), At5(r.out, r.G, b), b)
 
 CallOk(r, whole, valuesOk) ==
-  LET mode == ErrMode(obj, su, r.G, whole) IN
-  /\ GeomOk(r.G)
+  LET mode == ErrMode(Target(r), su, r.G, whole) IN
+  /\ GeomOk(r.G) /\ Target(r).cls # "Unknown"
   /\ ErrOk(mode, r.err)
   /\ (~r.err => valuesOk)
 
@@ -110,10 +116,10 @@ Explains(r) ==
     [] r.e = "Eff" -> /\ su.st = "ok" /\ GeomEq(su.g, r.G)
                       /\ IF Reports(obj) THEN ~r.err /\ \A b \in BinsOf(r.G) : At5(r.effs, r.G, b) = Eff(obj, b)
                          ELSE r.err
-    [] r.e = "RV" -> ~HasAtt(obj) /\ CallOk(r, FALSE, RVValuesOk(r))
-    [] r.e = "Whole" -> ~HasAtt(obj) /\ CallOk(r, TRUE, WholeValuesOk(r))
-    [] r.e = "RVF" -> CallOk(r, FALSE, AttReady(obj) /\ RVFValuesOk(r))
-    [] r.e = "WholeF" -> CallOk(r, TRUE, AttReady(obj) /\ WholeFValuesOk(r))
+    [] r.e = "RV" -> ~HasAtt(Target(r)) /\ CallOk(r, FALSE, RVValuesOk(r))
+    [] r.e = "Whole" -> ~HasAtt(Target(r)) /\ CallOk(r, TRUE, WholeValuesOk(r))
+    [] r.e = "RVF" -> Target(r) = obj /\ CallOk(r, FALSE, AttReady(obj) /\ RVFValuesOk(r))
+    [] r.e = "WholeF" -> Target(r) = obj /\ CallOk(r, TRUE, AttReady(obj) /\ WholeFValuesOk(r))
     [] r.e = "AttGeom" -> GeomOk(r.G) /\ Len(r.s8) = r.G.maxTang - r.G.minTang + 1 /\ Len(r.phi16) = r.G.views
     [] r.e = "AttImg" -> r.img = Len(att.imgs) + 1
     [] r.e = "AttTab" -> AttTabOk(r)
